@@ -45,6 +45,7 @@ func checkC07(w *World, r *Report) {
 	r.Rule("R07.10", "a write succeeds only after its packets were acknowledged", 1)
 	r.Rule("R07.12", "the byte count of a write covers every chunk it queued", 1)
 	r.Rule("R07.17", "a flag raised around a region is lowered on every path out of it", 1)
+	r.Rule("R07.18", "every Unlock releases a mutex that is held on every path reaching it (unlock of an unlocked mutex is a fatal error)", 10)
 	r.Rule("R07.16", "every lock-protected field of the tunnel's queues and connections is written under one and the same mutex everywhere", 3)
 	r.Rule("R07.15", "mutexes of the DNS tunnel are acquired in one global order (no held-while-acquiring cycle)", 1)
 	r.Rule("R07.14", "no function re-locks a mutex it already holds (queues, call mutex, user table)", 3)
@@ -64,6 +65,7 @@ func checkC07(w *World, r *Report) {
 	ruleLocksetConsistent(w, r, "R07.16", func(p string) bool { return strings.HasPrefix(p, modPath+"/internal/streams/dns") }, "a Read overlapping an Append sees a torn buffer: bytes are delivered twice or an acknowledged packet is lost")
 	ruleLockOrder(w, r, "R07.15", func(p string) bool { return strings.HasPrefix(p, modPath+"/internal/streams/dns") })
 	ruleNoReentrantLock(w, r, "R07.14", func(p string) bool { return strings.HasPrefix(p, modPath+"/internal/streams/dns") })
+	ruleUnlockHeld(w, r, "R07.18", func(p string) bool { return strings.HasPrefix(p, modPath+"/internal/streams/dns") })
 }
 
 // seqFields: struct fields of type uint16 that carry sequence numbers (by
